@@ -411,6 +411,7 @@ inductive Expr where
   | slice (a : Expr) (i j : Option Int)              -- `a[i:j]`
   | fixedLen (a : Expr) (n : Int)                    -- `a.fixed_len(n)`
   | iter (a : Expr)                                  -- `list(a)`
+  | joinIt (sep a : Expr)                            -- `sep.join(a)`: the text / chunk `a` is the iterable
   deriving Repr
 
 def liftErr {α} : Except Err α → Except Fail α
@@ -434,6 +435,12 @@ def pyIAdd : Part → Part → Except Fail Part
   | .str s, .chunk c => .ok (.text (radd (.chunk c) (.str s)))
   | .str s, .text t => .ok (.text (radd (.text t) (.str s)))
   | _, _ => .error .unmodelled
+
+/-- the items a `for` loop over the value sees (texts and chunks only) -/
+def iterItems : Part → Except Fail (List Part)
+  | .text t => liftErr (t.iter.map fun ts => ts.map Part.text)
+  | .chunk c => liftErr (c.iter.map fun cs => cs.map Part.chunk)
+  | _ => .error .unmodelled
 
 mutual
 def eval : Expr → Except Fail Part
@@ -483,6 +490,14 @@ def eval : Expr → Except Fail Part
     match x with
     | .text t => liftErr (t.iter.map fun ts => Part.list false (ts.map Part.text))
     | .chunk c => liftErr (c.iter.map fun cs => Part.list false (cs.map Part.chunk))
+    | _ => .error .unmodelled
+  | .joinIt sep a => do
+    let s ← eval sep
+    let x ← eval a
+    let items ← iterItems x
+    match s with
+    | .text t => .ok (.text (t.join items))
+    | .chunk c => .ok (.text ((construct [.chunk c]).join items))
     | _ => .error .unmodelled
 def evalList : List Expr → Except Fail (List Part)
   | [] => .ok []
